@@ -24,7 +24,7 @@ def gen_cases(rng, tier: str) -> list[dict]:
         for bad in c02.offenders(g) + c07.variable_free_offenders(g):
             exprs.append(("offender", gen.wrap_random(g, bad, 1)))
             exprs += [("hidden", h) for h in c07.skipping_parents(g, bad)[:8]]
-    exprs += common.expr_stream(rng, tier, common.sizes(tier, 150, 2500), depth_q=4, depth_t=6, names=("x", "y", "z"), share=0.2)
+    exprs += common.expr_stream(rng, tier, common.sizes(tier, 150, 2500), depth_q=4, depth_t=6, names=("x", "y", "z"), share=0.2, max_size=150)
     cases = []
     for origin, e in exprs:
         vs = common.names_of(e)
